@@ -41,10 +41,15 @@ def keyed_plan(pg, nkeys):
     for k in keys:
         order += [k] * rng.choice([1, 2, 3])
     rng.shuffle(order)
-    for k in order:
+    # some runs are closed as soon as their last data point is taken, while the others are still being filled
+    # (closing one run must not disturb the numbering or the replay of the runs that stay open)
+    early = {k for k in keys if rng.random() < 0.6}
+    last_pos = {k: max(i for i, x in enumerate(order) if x == k) for k in keys}
+    closed = set()
+    for pos, k in enumerate(order):
         d = det_of[k]
         stream = rng.choice(["primary", "aux"]) + "_" + str(k)
-        pt = [msg(S, "checkpoint")] if rng.random() < 0.8 else []
+        pt = [msg(S, "checkpoint")] if rng.random() < 0.55 else []
         g = pg.group()
         pt += [msg(S, "trigger", d, group=g), msg(S, "wait", None, group=g)]
         pt += [msg(S, "create", None, name=stream, run=k), msg(S, "read", d, run=k), msg(S, "save", None, run=k)]
@@ -59,7 +64,10 @@ def keyed_plan(pg, nkeys):
                     "handlers": [{"exc": "IllegalMessageSequence", "body": [msg(S, "null")]}],
                 }
             )
-    closing = list(keys)
+        if k in early and pos == last_pos[k] and pos != len(order) - 1:
+            body.append(msg(S, "close_run", None, run=k))
+            closed.add(k)
+    closing = [k for k in keys if k not in closed]
     rng.shuffle(closing)
     body += [msg(S, "close_run", None, run=k) for k in closing]
     return body, det_of
